@@ -246,6 +246,43 @@ pub fn child(args: &[String]) -> i32 {
             c
         });
     }
+    // every candidate of the first stream is subtracted (f minus f, f minus f minus a disjoint one):
+    // nothing is emitted, and a per-candidate buffer that is only reset per emitted item would grow
+    // with the run of subtracted keys (seeded change R14-e-b)
+    measure!("difference_all_subtracted_k2", {
+        let mut ob = fst::raw::OpBuilder::new();
+        ob.push(f);
+        ob.push(f);
+        let mut s = ob.difference();
+        let mut c = 0u64;
+        while let Some(_) = s.next() {
+            c += 1;
+        }
+        c
+    });
+    measure!("difference_all_subtracted_k3", {
+        let mut ob = fst::raw::OpBuilder::new();
+        ob.push(f);
+        ob.push(&fsts[1]);
+        ob.push(f);
+        let mut s = ob.difference();
+        let mut c = 0u64;
+        while let Some(_) = s.next() {
+            c += 1;
+        }
+        c
+    });
+    measure!("symmetric_difference_all_cancelled_k2", {
+        let mut ob = fst::raw::OpBuilder::new();
+        ob.push(f);
+        ob.push(f);
+        let mut s = ob.symmetric_difference();
+        let mut c = 0u64;
+        while let Some(_) = s.next() {
+            c += 1;
+        }
+        c
+    });
     // the Map / Set wrappers over the same bytes: opening and point lookups allocate nothing,
     // their streams and operations stay within the same bounds as the raw ones
     measure!("open_map_and_set_over_slices", {
